@@ -77,7 +77,7 @@ def xarray_dataset_from_results(
     output_names = sorted(results.keys())
     return _xarray_dataset(
         mapspecs,
-        inputs,
+        pipeline.defaults | inputs,  # a mapped array might be a default only
         data_loader=partial(_data_loader, data=results),
         output_names=output_names,
         load_intermediate=load_intermediate,
